@@ -885,6 +885,23 @@ func runC18(r *Run) {
 			r.Bad("R12", "anchor/GetTxPriority", "", "not found")
 		}
 	}
+	r.Rule("R13", "see C10 R13 (imported) + PATH.admission-by-the-transaction's-cost: (a) no Haqq function hands out the mutable big.Int inside an sdk.Int (BigIntMut): a getter of a wrapped transaction's field that returns the stored number lets whoever adds to the result rewrite the message — its value, and with it its hash and recovered sender; (b) the balance check that admits an Ethereum transaction (EthAccountVerificationDecorator) is the keeper's CheckSenderBalance, i.e. go-ethereum's tx.Cost() = fee cap × gas + value, error-checked on every path to next — not the (lower) effective cost")
+	r.Import("R13/C10.", []string{"R13"}, runC10)
+	if av, ok := P.FnOK("(app/ante/evm.EthAccountVerificationDecorator).AnteHandle"); ok {
+		nChk, usesEff := 0, false
+		eachCall(av, func(ci CallInfo) {
+			if ci.Name == "CheckSenderBalance" && pathHasSuffix(ci.PkgPath, "x/evm/keeper") && errHandled(ci.Instr) {
+				nChk++
+			}
+			if ci.Name == "EffectiveCost" {
+				usesEff = true
+			}
+		})
+		r.Check(nChk >= 1 && !usesEff, "R13", fnID(av)+"#admission-by-cost", P.Pos(fnPos(av)), "keeper.CheckSenderBalance (txData.Cost()), error-checked",
+			"the decorator that admits Ethereum transactions no longer checks the sender's balance against the transaction's cost (fee cap × gas + value) through the keeper's CheckSenderBalance: a sender holding a fraction of the cost is admitted")
+	} else {
+		r.Bad("R13", "anchor/EthAccountVerificationDecorator.AnteHandle", "", "not found")
+	}
 	r.Rule("R11", "PATH.wire-integers-bounded-before-storing + nil-base-fee: (a) the constructors that wrap a typed Ethereum transaction (newAccessListTx, NewDynamicFeeTx) store the chain id with SetSignatureValues, which converts with the panicking NewIntFromBigInt — the call is reachable only after an error-checked SafeNewIntFromBigInt / IsValidInt256 of a value derived from tx.ChainId(), as for every amount field: a chain id above 256 bits must be an error like for a legacy transaction, not a panic; (b) DynamicFeeTx.EffectiveGasPrice reaches the arithmetic helper only over the edge on which the base fee is not nil — without a base fee (London inactive) go-ethereum prices the transaction at its fee cap, the helper dereferences the nil and the minimum-gas-price decorator panics on every dynamic-fee transaction")
 	for _, id := range []string{evmTypes + ".newAccessListTx", evmTypes + ".NewDynamicFeeTx"} {
 		fn, ok := P.FnOK(id)
